@@ -90,9 +90,9 @@ define(
          'exhaustive_search', 'greedy_search', 'search_results'])],
     ENGINE_TRUST + PANDAS_TRUST + [
         'object invariants are established by the constructors '
-        '(TBRMMData.__init__, TBRMatchedMarkets.__init__: proved over the '
-        'pandas ledger; GeoEligibility.__init__ validation: ASSUMED, bounded '
-        'monitor C16) and assumed on entry to every other method',
+        '(GeoEligibility.__init__, TBRMMData.__init__, '
+        'TBRMatchedMarkets.__init__: proved over the pandas ledger) and '
+        'assumed on entry to every other method',
     ],
     ['designs are stated at index level at the push site; legality of the '
      'admitted set is proved at ID level'],
@@ -286,8 +286,9 @@ define(
         'mean, sort_values, Series/scalar, pd.DataFrame of all-ones rows) '
         'keep the label sets as stated in the ledger; what they compute is '
         'not interpreted',
-        'GeoEligibility.__init__: ASSUMED contract (raises ValueError or '
-        'stores the table unchanged); validation covered by C16\'s monitor'],
+        'GeoEligibility.__init__ is verified against its contract under C16 '
+        '(same sidecar); a validated table handed to it is coerced to the raw '
+        'frame it denotes (one row per label, cells 1/0 by column set)'],
     ['the canonical form (pivot/sort/share values) is the pandas contract '
      'itself: bounded only'],
     'Proved: TBRMMData.__init__ establishes the data invariant, stores the '
@@ -304,17 +305,26 @@ define(
 define(
     'C16', 'proof',
     [('geoeligibility', None, False)],
-    ENGINE_TRUST + PANDAS_TRUST,
-    ['validation (acceptance predicate of GeoEligibility.__init__) is a chain '
-     'of pandas calls: exhaustive bounded monitor (all tables <= 3 rows over '
-     'the 8 row types + malformed variants)'],
-    'Partition and row encoding of the seven classes (GeoAssignments.__init__) '
-    'and subset/index selection incl. the empty subset '
-    '(get_eligible_assignments) are discharged for all tables and geo lists; '
-    'acceptance is decided by an exhaustive bounded run-time contract.',
+    ENGINE_TRUST + PANDAS_TRUST + [
+        'pandas steps of GeoEligibility.__init__ (copy, reset_index, '
+        'columns membership / duplicated, astype, .loc[:, names], '
+        'df[c].duplicated(), set(df[c]), df[cols].sum(axis=1) == 0, any, '
+        'set_index) as stated in the ledger: rows are kept, masks flag the '
+        'rows the pandas documentation says; cells are integers'],
+    ['cells that are neither ints nor integer-valued floats (strings, NaN) '
+     'and frames whose index is named geo are exercised by the exhaustive '
+     'bounded monitor only'],
+    'Discharged for all frames and geo lists: GeoEligibility.__init__ '
+    'raises ValueError exactly when a column is missing or repeated, a geo '
+    'value occurs twice, a cell is not 0/1 or a row is all zeros, otherwise '
+    'stores one row per geo with the column sets of the cells equal to 1 (no '
+    'all-zero row); partition and row encoding of the seven classes '
+    '(GeoAssignments.__init__); subset/index selection incl. the empty '
+    'subset (get_eligible_assignments).  The exhaustive bounded monitor '
+    '(all tables <= 3 rows over the 8 row types + malformed variants) is an '
+    'independent cross-check.',
     'DESIGN.md section 7, C16',
-    'Partition: proof modulo ledger/engine.  Validation: exhaustive within '
-    'the stated bound, not counted as proved.')
+    'Proof modulo the pandas ledger and engine soundness.')
 
 DIAG = 'TBRMMDiagnostics.'
 define(
